@@ -240,79 +240,76 @@ func ruleMergeIter(r *Run) {
 	dl := modPath + "/" + dockerlogPkg
 	next := p.Method(dockerlogPkg, "mergeIter", "Next")
 	initM := p.Method(dockerlogPkg, "mergeIter", "init")
-	less := p.Method(dockerlogPkg, "iterHeapElem", "Less")
 	anchor := r.Ob("ANCHOR", "dockerlog.mergeIter", "anchor methods resolve")
 	anchor.Trivial = true
-	if next == nil || initM == nil || less == nil {
-		anchor.Fail("-", "mergeIter.Next/init or iterHeapElem.Less not found")
+	if next == nil || initM == nil {
+		anchor.Fail("-", "mergeIter.Next/init not found")
 		return
 	}
 	anchor.OK("resolved").At(r.pos(next.Pos()))
 
-	// Less orders by record.Timestamp ascending
+	// container/heap adapter: Less(i, j) orders h[i] before h[j] iff h[i]'s record timestamp is smaller
+	// (directly, or through an element method); Push appends; Pop removes last
+	hl := p.Method(dockerlogPkg, "iterHeap", "Less")
 	ol := r.Ob("PV-ROLE", "dockerlog.iterHeapElem.Less", "the heap orders elements by record timestamp, smallest first")
-	rets := returnsOf(less)
-	lgood := false
-	if len(rets) == 1 {
-		if b, ok := rets[0].Results[0].(*ssa.BinOp); ok {
-			side := func(v ssa.Value) (int, bool) {
-				// v = load of (&x.record).Timestamp
-				f, base, ok := loadOfField(v)
-				if !ok || f != "Timestamp" {
-					return 0, false
-				}
-				f2, base2, ok := fieldNameOf(base)
-				if !ok || f2 != "record" {
-					return 0, false
-				}
-				switch spillParam(base2) {
-				case ssa.Value(less.Params[0]):
-					return 0, true
-				case ssa.Value(less.Params[1]):
-					return 1, true
+	oh := r.Ob("PV-ROLE", "dockerlog.iterHeap adapter", "the container/heap adapter compares h[i] with h[j] in this order, Push appends, Pop removes the last element")
+	if hl == nil || len(hl.Params) != 3 {
+		ol.Fail("-", "iterHeap.Less not found")
+		oh.Fail("-", "iterHeap.Less not found")
+	} else {
+		// which heap index (parameter 1 = i, 2 = j) an operand's element is
+		side := func(l leaf, v ssa.Value) (int, bool) {
+			f, base, ok := loadOfField(v)
+			if !ok || f != "Timestamp" {
+				return 0, false
+			}
+			f2, base2, ok := fieldNameOf(base)
+			if !ok || f2 != "record" {
+				return 0, false
+			}
+			el := l.resolve(spillParam(base2))
+			if ia, ok := el.(*ssa.IndexAddr); ok {
+				for i, prm := range hl.Params {
+					if ia.Index == ssa.Value(prm) && ia.X == ssa.Value(hl.Params[0]) {
+						return i, true
+					}
 				}
 				return 0, false
 			}
-			x, okx := side(b.X)
-			y, oky := side(b.Y)
-			if okx && oky {
-				if (b.Op == token.LSS && x == 0 && y == 1) || (b.Op == token.GTR && x == 1 && y == 0) {
-					lgood = true
+			if lu, ok := el.(*ssa.UnOp); ok {
+				if ia, ok := lu.X.(*ssa.IndexAddr); ok && ia.X != ssa.Value(hl.Params[0]) {
+					return 0, false
 				}
 			}
+			return indexParam(el, hl)
 		}
-	}
-	if lgood {
-		ol.OK("a.record.Timestamp < b.record.Timestamp").At(r.pos(less.Pos()))
-	} else if len(rets) == 1 {
-		ol.Fail(r.pos(less.Pos()), "Less returns %s", describe(rets[0].Results[0], 0))
-	} else {
-		ol.Undecide(r.pos(less.Pos()), "multiple returns")
-	}
-	// container/heap adapter: Less(i,j) = h[i].Less(h[j]); Push appends; Pop removes last
-	hl := p.Method(dockerlogPkg, "iterHeap", "Less")
-	oh := r.Ob("PV-ROLE", "dockerlog.iterHeap adapter", "the container/heap adapter compares h[i] with h[j] in this order, Push appends, Pop removes the last element")
-	if hl == nil {
-		oh.Fail("-", "iterHeap.Less not found")
-	} else {
-		hgood := false
-		for _, c := range callsIn(hl) {
-			if callIs(c, dl, "(iterHeapElem).Less") {
-				a0, a1 := unspill(c.Common().Args[0]), unspill(c.Common().Args[1])
-				i0, ok0 := indexParam(a0, hl)
-				i1, ok1 := indexParam(a1, hl)
-				if ok0 && ok1 && i0 == 1 && i1 == 2 {
-					hgood = true
+		lgood, n := true, 0
+		for _, ret := range returnsOf(hl) {
+			for _, l := range expandLeaves(ret.Results[0], nil, 0) {
+				n++
+				b, ok := l.V.(*ssa.BinOp)
+				if !ok {
+					lgood = false
+					continue
+				}
+				x, okx := side(l, b.X)
+				y, oky := side(l, b.Y)
+				if !(okx && oky && ((b.Op == token.LSS && x == 1 && y == 2) || (b.Op == token.GTR && x == 2 && y == 1))) {
+					lgood = false
 				}
 			}
 		}
 		pop := p.Method(dockerlogPkg, "iterHeap", "Pop")
 		push := p.Method(dockerlogPkg, "iterHeap", "Push")
-		if pop == nil || push == nil {
-			hgood = false
+		if lgood && n > 0 {
+			ol.OK("h[i].record.Timestamp < h[j].record.Timestamp").At(r.pos(hl.Pos()))
+		} else {
+			ol.Fail(r.pos(hl.Pos()), "Less(i, j) is not `h[i].record.Timestamp < h[j].record.Timestamp`")
 		}
-		if hgood {
-			oh.OK("Less(i, j) = h[i].Less(h[j])").At(r.pos(hl.Pos()))
+		if pop == nil || push == nil {
+			oh.Fail(r.pos(hl.Pos()), "iterHeap.Push / Pop not found")
+		} else if lgood && n > 0 {
+			oh.OK("Less(i, j) compares h[i] with h[j]").At(r.pos(hl.Pos()))
 		} else {
 			oh.Fail(r.pos(hl.Pos()), "Less does not compare h[i] with h[j]")
 		}
